@@ -250,6 +250,7 @@ func c15(c *core.Ctx, r *core.Report) {
 	rule(r, "C15.R2", "default inheritance: every `s.F = defaults.G` has F ≡ G (one frozen fallback: Default.Concurrency ← Limits.Concurrency); the four rate-mode validators all inherit Distribution, Jitter and Parameters", func() {
 		n := 0
 		perFn := map[string]map[string]bool{}
+		ownInherit := map[string]bool{} // functions that copy a default in their own body (the validators)
 		for _, fn := range c.AllFuncs {
 			if core.RelPkg(fn) != fpkg {
 				continue
@@ -291,6 +292,9 @@ func c15(c *core.Ctx, r *core.Report) {
 					perFn[fn.Name()] = map[string]bool{}
 				}
 				perFn[fn.Name()][dst.Name()] = true
+				if e.Frame.Parent == nil {
+					ownInherit[fn.Name()] = true
+				}
 				// inheritance fills a gap only: the store is guarded by "the stage's own value is nil" (in this frame or
 				// in the caller of a helper); a default that overrides a value the stage did set changes the plan
 				onlyWhenUnset := false
@@ -337,6 +341,9 @@ func c15(c *core.Ctx, r *core.Report) {
 		sort.Strings(names)
 		for _, name := range names {
 			got := perFn[name]
+			if !ownInherit[name] {
+				continue // sees the validators' stores only through calls
+			}
 			if got["Distribution"] || got["Jitter"] {
 				modeValidators++
 				for _, f := range []string{"Distribution", "Jitter", "Parameters"} {
